@@ -45,6 +45,8 @@ def dispatch : Sexp → Except String Sexp
     RouterOps.runOp (w == "true") (c == "true") (notes.toNat?.getD 1) acts
   | .list [.atom "fs.writeFile", .atom a, .str base, .str key, .atom n] =>
     .ok (FsOps.writeFileOp (a == "true") base key (n.toNat?.getD 1))
+  | .list [.atom "fs.writeFileFailing", .str base, .str key, .atom n, .atom k] =>
+    .ok (FsOps.writeFileFailingOp base key (n.toNat?.getD 1) (k.toNat?.getD 0))
   | .list (.atom "pos.ranges" :: .str content :: rs) => PosOps.rangesOp content rs
   | .list [.atom "reader.read", .str content, .list (.atom "events" :: evs)] => ReaderOps.readOp content evs
   | .list [.atom "uri.keyToUrl", .str b, .str k] => .ok (UriOps.keyToUrlOp b k)
